@@ -72,10 +72,19 @@ int snoopy_output_fileoutput (char const * const logMessage, char const * const 
     // Parse the output file specification (i.e. for %{datetime} or similar tags)
     snoopy_message_generateFromFormat(filePath, PATH_MAX, PATH_MAX, arg);
 
-    // Try to open file in append mode (same semantics as fopen(path, "a"))
-    fd = open(filePath, O_WRONLY | O_CREAT | O_APPEND | O_CLOEXEC, S_IRUSR | S_IWUSR | S_IRGRP | S_IWGRP | S_IROTH | S_IWOTH);
+    // Try to open file in append mode (same semantics as fopen(path, "a")) - but never WAIT for it: a plain open() sleeps
+    // on a FIFO that nobody reads (until somebody does) and on a file another process holds a lease on (for up to
+    // /proc/sys/fs/lease-break-time seconds), and the caller's exec would wait with it. O_NONBLOCK makes these fail at once.
+    fd = open(filePath, O_WRONLY | O_CREAT | O_APPEND | O_CLOEXEC | O_NONBLOCK | O_NOCTTY, S_IRUSR | S_IWUSR | S_IRGRP | S_IWGRP | S_IROTH | S_IWOTH);
     if (-1 == fd) {
         return SNOOPY_OUTPUT_FAILURE;
+    }
+    // The record itself is written as before (a non-blocking write could cut it short): this is our own open file description
+    {
+        int fdFlags = fcntl(fd, F_GETFL);
+        if (-1 != fdFlags) {
+            fcntl(fd, F_SETFL, fdFlags & ~O_NONBLOCK);
+        }
     }
 
     // Hand the whole record (message + newline) to the OS in ONE append. stdio would cut records of 4096
